@@ -7,6 +7,7 @@ import (
 	"fmt"
 	"io"
 	"net/http"
+	"strings"
 	"sync"
 	"time"
 
@@ -255,6 +256,13 @@ func (a *Application) translationHandler(trans translator.RequestTranslator) htt
 
 		// Run through proxy pipeline (inspector, security, routing)
 		a.analyzeRequest(ctx, r, pr)
+
+		// The body inspector gives up on bodies above its 1 MiB limit and then leaves the routing
+		// profile without a model, which would skip model routing entirely. The model name was
+		// already extracted above, so hand it over (normalised the way the inspector does).
+		if pr.profile != nil && pr.profile.ModelName == "" && pr.model != "" {
+			pr.profile.ModelName = strings.ToLower(strings.TrimSpace(pr.model))
+		}
 
 		// Get compatible endpoints for this request
 		endpoints, err := a.getCompatibleEndpoints(ctx, pr)
